@@ -1,57 +1,9 @@
 ------------------------------- MODULE PushGP -------------------------------
 (***************************************************************************)
-(* Scoring a Plushy genome the way every example of the `push` crate does  *)
-(* it (examples/median, smallest, number_io, *_regression):                *)
-(*                                                                         *)
-(*   program = Vec::<PushProgram>::from(genome)          -- Plushy.tla     *)
-(*   for each training case (inputs, expected), in case order:             *)
-(*     state = PushState::builder().with_max_stack_size(m)                 *)
-(*               .with_program(program)?.with_*_input(..)                  *)
-(*               .with_instruction_step_limit(limit).build()  -- Builder   *)
-(*     final = state.run_to_completion()                  -- PushVM        *)
-(*     error = |top of final int stack - expected|, or the penalty when    *)
-(*             the state cannot be built, the run is aborted (fatal) or    *)
-(*             no integer is left                                          *)
-(*   results = the errors in case order; total = their sum  -- Ordering    *)
-(*                                                                         *)
-(* Not one of the listed properties by itself: it is the composition the   *)
-(* listed properties C01 / C03 / C05 / C15 / C19 exist for, written once   *)
-(* as one function of the genome so that the real pipeline can be compared *)
-(* with it end to end.  Everything is built from the operators of the      *)
-(* modules that specify the parts: Plushy!Parse, PushInstr!StepOutcomes.   *)
+(* The evaluation of one genome (PushScore) as a state machine: one        *)
+(* training case per step, in case order.                                  *)
 (***************************************************************************)
-EXTENDS PushInstr, TLC
-
-PL == INSTANCE Plushy WITH genome <- <<>>, pos <- 1, open <- <<>>, done <- TRUE
-
-(* a gene is Plushy's: [c |-> TRUE] or [o |-> blocks opened, t |-> the instruction] *)
-Opens(ins) == IF ins.f = "exec" /\ ins.o \in DOMAIN PL!OpensTable THEN PL!OpensTable[ins.o] ELSE 0
-Gene(ins) == [o |-> Opens(ins), t |-> ins]
-WellTabled(gs) == \A k \in 1..Len(gs) : IF PL!IsClose(gs[k]) THEN TRUE ELSE gs[k].o = Opens(gs[k].t)
-
-(* Plushy's program (items [i |-> gene] / [b |-> program]) as exec-stack items *)
-RECURSIVE ToExec(_)
-ToExec(p) ==
-  IF p = <<>> THEN <<>>
-  ELSE LET h == Head(p) IN
-       << IF "b" \in DOMAIN h THEN [f |-> "block", v |-> ToExec(h.b)] ELSE h.i.t >> \o ToExec(Tail(p))
-
-Translate(genes) == ToExec(PL!Parse(genes))
-
-Uniform(m) == [exec |-> m, int |-> m, flt |-> m, bool |-> m]
-Fresh(program) == [exec |-> program, int |-> <<>>, flt |-> <<>>, bool |-> <<>>, out |-> <<>>]
-
-(* what one training case contributes: [e |-> error, out |-> what was printed] *)
-Penalised(penalty) == [e |-> penalty, out |-> <<>>, pen |-> TRUE]
-CaseOutcomes(program, m, limit, inputs, expected, penalty) ==
-  IF Len(program) > m THEN {Penalised(penalty)}              \* with_program fails: nothing runs
-  ELSE { IF f.status = "fatal" THEN Penalised(penalty)
-         ELSE IF f.st.int = <<>> THEN [e |-> penalty, out |-> f.st.out, pen |-> TRUE]
-         ELSE [e |-> Abs(f.st.int[1] - expected), out |-> f.st.out, pen |-> FALSE]
-         : f \in RunFrom(Fresh(program), 0, Uniform(m), inputs, limit) }
-
-RECURSIVE SumSeq(_)
-SumSeq(s) == IF s = <<>> THEN 0 ELSE Head(s) + SumSeq(Tail(s))
+EXTENDS PushScore
 
 -----------------------------------------------------------------------------
 (* The evaluation of one genome as a state machine: one case per step, in   *)
